@@ -127,6 +127,10 @@ func rawRun(in *RawInput, res *Result, enc *json.Encoder, run int) {
 	byID := map[peer.ID]string{}
 	for i, h := range mn.Hosts() {
 		opts := []p2ppubsub.Option{p2ppubsub.WithMessageIdFn(func(m *pspb.Message) string { return string(m.GetData()) })}
+		if run%2 == 1 {
+			// anonymous pubsub: messages carry no author and no signature, the author field does not tell whose they are
+			opts = append(opts, p2ppubsub.WithMessageSignaturePolicy(p2ppubsub.StrictNoSign), p2ppubsub.WithNoAuthor())
+		}
 		if i == 0 {
 			opts = append(opts, p2ppubsub.WithEventTracer(truth))
 		}
